@@ -216,7 +216,7 @@ GROUPS = {
         },
         "obligations": [
             ("run_spawns", ["gRun"], "RunSpawns gRun",
-             "intro args w h1 h2 h3 he hg\n  unfold gRun\n"
+             "intro args w h1 h2 h3 he hg hc\n  unfold gRun\n"
              "  rcases hv : w.var with _ | g <;> rcases ho : w.callOut with coro | e <;> (try (obtain ⟨c, n, rfl⟩ := he e ho)) <;>\n"
              "    cases hr : w.groupRefuses <;> (try (obtain ⟨k, rfl⟩ := hg g hv)) <;> spawn_eval <;> (try simp_all)"),
         ],
